@@ -262,9 +262,16 @@ def session(sidx: int) -> Session:
     return _SESS[sidx]
 
 
+_ALONE_SIGS: dict = {}
+KEEP_CACHES = False  # part 'after': the message is decoded in the cache state the previous message left
+
+
 def clean_caches() -> None:
     """decode in a clean cache state: history (in)dependence is C19's subject"""
     from exabgp.bgp.message.update.attribute.collection import AttributeCollection
+
+    if KEEP_CACHES:
+        return
 
     if hasattr(AttributeCollection, 'cached'):
         AttributeCollection.cached = None
@@ -1116,10 +1123,53 @@ def _one(res, S, mtype, body, valid, part, do_seam2=True):
         _record(res, viols, case, len(body))
 
 
+def _after(res, S, prior, sd, do_seam2=False):
+    """sd (valid on this session) decoded right after `prior` (valid too) with every cache as `prior` left it:
+    it must still be decoded - no exception, no refusal."""
+    global KEEP_CACHES
+    clear_attribute_cache()
+    KEEP_CACHES = False
+    clean_caches()
+    akey = (S.sidx, sd['type'], sd['body'])
+    if akey not in _ALONE_SIGS:
+        # what the same message yields alone is reported by part (b), not here
+        _ALONE_SIGS[akey] = {sig for sig, _ in judge(S, sd['type'], sd['body'], True, do_seam2)[0]}
+        clear_attribute_cache()
+        clean_caches()
+    KEEP_CACHES = True
+    try:
+        seam1(S, prior['type'], prior['body'])
+        viols, okey, reach, execs, s2 = judge(S, sd['type'], sd['body'], True, do_seam2)
+    finally:
+        KEEP_CACHES = False
+    res['exec'] += execs + 1
+    res['seam2'] += s2
+    res['inputs'] += 1
+    res['reached'] += 1 if reach else 0
+    res['outcomes'].add(('after',) + tuple(okey))
+    viols = [(sig, what) for sig, what in viols if sig not in _ALONE_SIGS[akey]]
+    if viols:
+        case = {'part': 'after', 'session': S.sidx, 'type': sd['type'], 'body': sd['body'].hex(), 'valid': True,
+                'prior_type': prior['type'], 'prior_body': prior['body'].hex()}
+        _record(res, [(f'after-another:{sig}', f'[right after a valid type {prior["type"]} message {prior["body"].hex()[:80]}] {what}') for sig, what in viols], case, len(sd['body']) + len(prior['body']))
+
+
 def worker(job):
     install_counter()
     kind = job[0]
     res = _new_result()
+    if kind == 'after':
+        _, tier, sidx, shard, nshards = job
+        S = session(sidx)
+        seeds = load_seeds()
+        ok = [sd for sd in seeds if seed_valid(sd, sidx) and framing_allows(sd['type'], len(sd['body']), max_size(sidx))]
+        for k, prior in enumerate(ok):
+            if k % nshards != shard:
+                continue
+            for sd in ok:
+                res['kinds']['after'] += 1
+                _after(res, S, prior, sd, do_seam2=(tier != 'quick' and sd is prior))
+        return res
     if kind == 'seed':
         _, tier, sidx, idxs = job
         S = session(sidx)
@@ -1226,6 +1276,10 @@ def jobs_for(tier: str):
         nsh = SWEEP_SHARDS.get(name, 1)
         for sh in range(nsh):
             jobs.append((200000, ('sweep', name, sh, nsh)))
+    # (e) every valid seed decoded right after every valid seed, the caches left alone (quick: sessions 0 and 1)
+    for sidx in ((0, 1) if tier == 'quick' else range(4)):
+        for sh in range(32):
+            jobs.append((3000000, ('after', tier, sidx, sh, 32)))
     # thorough: pairs
     if tier != 'quick':
         nsh = 8
@@ -1262,7 +1316,7 @@ def run(ctx: core.Ctx) -> None:
                 f'(b) {len(seeds)} frozen seeds x 4 sessions x every single-point deviation (truncation at every offset, every byte <- {{00,01,7f,80,ff,b-1,b+1}}, located length fields <- {{0,-1,+1,max}}, TLV dup/del/swap)'
                 + ('' if ctx.tier == 'quick' else f' + all pairs of byte deviations on seeds <= {PAIR_MAX_LEN} bytes on sessions {PAIR_SESSIONS} (read_message on every 16th pair and on every pair the direct decode flags)')
                 + f'; (c) {len(LADDERS)} scaling ladders N=1,2,4,.. to the 4096- and 65535-byte limits; (d) {len(SWEEPS)} code sweeps (every attribute code x 4 flag sets, every extended-community type/subtype, every BGP-LS / prefix-SID / SRv6 / '
-                'tunnel-encapsulation / SR-policy-segment TLV type, every EVPN / MVPN / MUP route type, every NLRI length octet of 15 families, flowspec component types, BGP-LS NLRI/descriptor types, capability codes, operational types, each x a set of value lengths); each input through Message.unpack+forcing and through Protocol.read_message; '
+                'tunnel-encapsulation / SR-policy-segment TLV type, every EVPN / MVPN / MUP route type, every NLRI length octet of 15 families, flowspec component types, BGP-LS NLRI/descriptor types, capability codes, operational types, each x a set of value lengths); each input through Message.unpack+forcing and through Protocol.read_message; (e) every valid seed decoded right after every valid seed on the same session with the caches as the first left them (sessions 0-1 quick, all thorough); '
                 'non-trivial = the input passes the message-header size rule and so reaches a body decoder')
     ctx.assumptions += ['validity of seeds and ladder members == vt/ref/wire strict decoder (RFC 7606 3.g for repeated attribute codes); recorded QA messages the reference does not model are presumed valid in session 0',
                         'step budget = Python function entries + jumps (sys.monitoring); C-level cost (bytes slicing) is not counted, so linearity is refutable only in interpreter steps',
@@ -1352,5 +1406,9 @@ def replay(case):
         viols, execs, info = run_ladder(case['ladder'], case['limit'])
         return [{'signature': sig, 'what': what} for sig, what, c, size in viols]
     S = session(case['session'])
+    if case.get('part') == 'after':
+        res = _new_result()
+        _after(res, S, {'type': case['prior_type'], 'body': bytes.fromhex(case['prior_body'])}, {'type': case['type'], 'body': bytes.fromhex(case['body'])}, do_seam2=True)
+        return [{'signature': sig, 'what': v[0]} for sig, v in res['viol'].items()]
     viols, okey, reach, execs, _s2 = judge(S, case['type'], bytes.fromhex(case['body']), bool(case.get('valid')))
     return [{'signature': sig, 'what': what} for sig, what in viols]
